@@ -23,6 +23,7 @@ type Clause struct {
 	Where  string // file:line
 	KnownK string // id of known finding carve-out attached (if any)
 	Needs  []string // labels of the clauses whose assumed facts this obligation may use (empty: all)
+	Scoped bool     // exit clause skipped at returns where its locals are not live
 	Split  int      // >0: one obligation per path into the nearest join(s), this many joins deep
 }
 
@@ -126,7 +127,7 @@ func newContracts() *Contracts {
 }
 
 var clauseKeywords = map[string]bool{
-	"spec": true, "pred": true, "axiom": true, "ghost": true, "func": true, "requires": true, "ensures": true, "exit": true, "defines": true, "termassume": true, "loopdecr": true,
+	"spec": true, "pred": true, "axiom": true, "ghost": true, "func": true, "requires": true, "ensures": true, "exit": true, "scoped": true, "defines": true, "termassume": true, "loopdecr": true,
 	"modifies": true, "use": true, "decreases": true, "inline": true, "trusted": true, "loop": true, "end": true,
 	"invariant": true, "package": true, "fnparam": true, "nullable": true, "pure": true, "nobody": true, "gaxiom": true, "useret": true, "implements": true, "define": true, "transition": true, "include": true, "loopinv": true, "params": true,
 }
@@ -473,7 +474,7 @@ func (cs *Contracts) loadFile(path string, goFile bool) error {
 				return err
 			}
 			cur.GhostDefs = append(cur.GhostDefs, c)
-		case "requires", "ensures", "exit", "modifies", "use", "decreases", "invariant":
+		case "requires", "ensures", "exit", "scoped", "modifies", "use", "decreases", "invariant":
 			if cur == nil {
 				return fail(fmt.Errorf("%s outside func", kw))
 			}
@@ -487,6 +488,12 @@ func (cs *Contracts) loadFile(path string, goFile bool) error {
 			case "ensures":
 				cur.Ensures = append(cur.Ensures, c)
 			case "exit":
+				cur.Exits = append(cur.Exits, c)
+			case "scoped":
+				// an exit clause that applies at the returns where the locals it names are in scope (and must
+				// apply at one return at least); used for clauses about error returns inside a branch
+				c.Kind = "exit"
+				c.Scoped = true
 				cur.Exits = append(cur.Exits, c)
 			case "modifies":
 				if curLoop != nil {
